@@ -100,6 +100,10 @@ func genPlan(t *rapid.T, tier string) any {
 	if rapid.IntRange(0, 3).Draw(t, "nilitem") == 0 {
 		p.NilItem = 1 + rapid.IntRange(0, n-1).Draw(t, "whichnil")
 	}
+	if !wide && !burst && rapid.IntRange(0, 99).Draw(t, "manyworkers") == 0 {
+		// far more workers than items (n is the caller's choice; a build machine with hundreds of cores passes hundreds)
+		p.Workers = rapid.SampledFrom([]int{64, 255, 256, 257, 300}).Draw(t, "hugeworkers")
+	}
 	if rapid.IntRange(0, 5).Draw(t, "slow") == 0 {
 		// one call of f takes long: however long, Do waits for it and nothing else changes
 		p.SlowItem = 1 + rapid.IntRange(0, n-1).Draw(t, "slowitem")
@@ -272,7 +276,7 @@ func run(t *testing.T, plan any, keep bool) *simcheck.Outcome {
 var harness = &simcheck.Harness{
 	Property: "C09",
 	Level:    "exploration",
-	Rule: "rapid draws a worker count (1-4), an item graph (children lists with duplicates, self loops and cycles; a quarter of the plans are wide: 1-2 workers, 12-40 items, long initial backlog, fan-out up to 24; a tenth are bursts: 66-140 items queued at one time, before Do or by the first call of f, then drained; one item may be the untyped nil; one call of f may take 1 ms to 61 s of simulated time), the initial adds, " +
+	Rule: "rapid draws a worker count (1-4, rarely 64-300), an item graph (children lists with duplicates, self loops and cycles; a quarter of the plans are wide: 1-2 workers, 12-40 items, long initial backlog, fan-out up to 24; a tenth are bursts: 66-140 items queued at one time, before Do or by the first call of f, then drained; one item may be the untyped nil; one call of f may take 1 ms to 61 s of simulated time), the initial adds, " +
 		"yield counts inside f, rendezvous points (a call of f waits until a child it added has started; at most n-1 items may wait), and a schedule (pct with change points / uniform random / sticky); a case is non-trivial when at least two " +
 		"different runner tasks executed f, and distinct by the hash of its full decision trace (task, seam) sequence",
 	Gen:     genPlan,
